@@ -130,12 +130,13 @@ def public_mult(ex, ec):
 
 
 @ob("C01", "off_curve_points_are_refused", quick=[dict(ec=c) for c in CURVES_Q], thorough=[dict(ec=c) for c in CURVES_T],
-    bound="every pair (x, y) in 0..p-1 x 0..p-1 (symbolic) and scalar m in 0..n: accepted exactly when the pair is a point of the curve or has y == 0 (the library's affine infinity)",
+    bound="every pair (x, y) with x in -p..2p (values outside the field included) and y in 0..p-1 (symbolic) and scalar m in 0..n: accepted exactly when the pair is a point of the curve "
+          "with coordinates in 0..p-1, or has y == 0 (the library's affine infinity)",
     functions=["btclib.curves.curve.mult", "btclib.curves.curve_group.CurveGroup.require_on_curve"], timeout=600, min_ok=0)
 def off_curve(ex, ec):
     g = toy.group(ec)
     ec = toy.curve(ec)
-    x = ex.int("x", 0, g.p - 1)
+    x = ex.int("x", -g.p, 2 * g.p)            # also values outside the field: x = p + x0 is not a coordinate even if (x0, y) is a point
     y = ex.int("y", 0, g.p - 1)
     on = sor(y == 0, g.idx_of_aff(x, y) >= 0)
     ex.assume(snot(on))
